@@ -193,3 +193,49 @@ pub fn job_compile(job: &Sexp) -> String {
         },
     }
 }
+
+/// source text -> n compilations in this process (fresh HashMaps, hence fresh hash seeds);
+/// prints one fingerprint per compilation and per configuration (C06)
+pub fn job_compile_hash(job: &Sexp) -> String {
+    use std::hash::{Hash, Hasher};
+    let src = job.field("src").args()[0].text();
+    let n = job.try_field("n").map(|f| f.args()[0].usize()).unwrap_or(6);
+    let mut out = vec![];
+    for dedup in [true, false] {
+        let mut hs = vec![];
+        for _ in 0..n {
+            let r = catch_unwind(AssertUnwindSafe(|| {
+                let opts = garble_lang::CompileOptions {
+                    circuit_kind: garble_lang::CircuitKind::Ssa,
+                    consts: Default::default(),
+                    optimize_duplicate_gates: dedup,
+                };
+                garble_lang::compile_with_options(&src, opts)
+            }));
+            hs.push(match r {
+                Err(_) => "crash".to_string(),
+                Ok(Err(_)) => "err".to_string(),
+                Ok(Ok(p)) => match &p.circuit {
+                    garble_lang::circuit_type::CircuitType::Ssa(c) => {
+                        #[allow(deprecated)]
+                        let mut h = std::hash::SipHasher::new();
+                        c.input_gates.hash(&mut h);
+                        c.output_gates.hash(&mut h);
+                        for g in c.gates.iter() {
+                            match g {
+                                Gate::Xor(a, b) => (0u8, *a, *b).hash(&mut h),
+                                Gate::And(a, b) => (1u8, *a, *b).hash(&mut h),
+                                Gate::Not(a) => (2u8, *a, 0usize).hash(&mut h),
+                            }
+                        }
+                        // the typed program must be identical too
+                        format!("{:016x}-{}", h.finish(), c.gates.len())
+                    }
+                    _ => "not-ssa".to_string(),
+                },
+            });
+        }
+        out.push(format!("({} {})", if dedup { "dedup" } else { "nodedup" }, hs.join(" ")));
+    }
+    out.join(" ")
+}
